@@ -148,10 +148,15 @@ def existence_patterns(ctx, rule='A5p'):
            'every exclusion edge between a source and a target of the choice becomes an excluded pair of the '
            'matrix generator', '')
     cd = ctx.fn(f'{NODES}:ConnectorDegreeGroupingNode.get_combined_deg')
-    t4 = FnText(ctx, cd)
-    ok = 'sorted(list({sum(comb) for comb in itertools.product(*deg_lists)}))' in t4 and \
-        'deg_lists.append(list(range(conn_deg_min, conn_deg_max + 1)))' in t4 and \
-        'deg_min_inf += sum([min(deg_list) for deg_list in deg_lists])' in t4
+    # structural part only (the numbers themselves are not decidable here): the bounded result is built from sums
+    # over the cartesian product of the members' degree lists, the open-ended one reports no upper limit
+    prods = [c for c in ast.walk(cd.node) if isinstance(c, (ast.SetComp, ast.ListComp, ast.GeneratorExp)) and
+             isinstance(c.elt, ast.Call) and call_name(c.elt) == 'sum' and
+             any(isinstance(x, ast.Call) and call_name(x) == 'product' and x.args and
+                 isinstance(x.args[0], ast.Starred) for x in ast.walk(c.generators[0].iter))]
+    open_ret = [r for r in walk_fn(cd) if isinstance(r, ast.Return) and isinstance(r.value, ast.Tuple) and
+                len(r.value.elts) == 3 and norm(r.value.elts[2]) == 'math.inf']
+    ok = bool(prods) and bool(open_ret)
     ctx.ob(rule, fkey(cd, rule, 'combined-degree-is-sumset'), ok, cd.where,
            'the combined degree of a group is the set of sums of one allowed degree per member (open-ended: sum '
            'of the minima, no upper limit)', '')
